@@ -9,6 +9,9 @@ import (
 	"github.com/spf13/cobra"
 )
 
+// Min length cutoff of the "brlen setmin" command
+var minbrlencutoff float64
+
 // minbrlenCmd represents the minbrlen command
 var minbrlenCmd = &cobra.Command{
 	Use:   "setmin",
@@ -46,8 +49,8 @@ if --external=false is given, it won't apply to external branches (only internal
 				return t.Err
 			}
 			for _, e := range t.Tree.Edges() {
-				if ((e.Right().Tip() && brlenexternal) || (!e.Right().Tip() && brleninternal)) && e.Length() < cutoff {
-					e.SetLength(cutoff)
+				if ((e.Right().Tip() && brlenexternal) || (!e.Right().Tip() && brleninternal)) && e.Length() < minbrlencutoff {
+					e.SetLength(minbrlencutoff)
 				}
 			}
 			f.WriteString(t.Tree.Newick() + "\n")
@@ -58,7 +61,7 @@ if --external=false is given, it won't apply to external branches (only internal
 
 func init() {
 	brlenCmd.AddCommand(minbrlenCmd)
-	minbrlenCmd.Flags().Float64VarP(&cutoff, "length", "l", 0.0, "Min Length cutoff")
+	minbrlenCmd.Flags().Float64VarP(&minbrlencutoff, "length", "l", 0.0, "Min Length cutoff")
 	minbrlenCmd.PersistentFlags().StringVarP(&intreefile, "input", "i", "stdin", "Input tree")
 	minbrlenCmd.PersistentFlags().StringVarP(&outtreefile, "output", "o", "stdout", "Min length output tree file")
 }
